@@ -1872,12 +1872,10 @@ class GramStack(Stack):
         if self.handler.opened:
             laters = deque()
             blockeds = []
-            while self.txPkts:
-                again = self._serviceOneTxPkt(laters, blockeds)
-                if not again:
-                    break
-            while laters:
-                self.txPkts.append(laters.popleft())
+            while self.txPkts:  # a blocked destination does not hold up the others
+                self._serviceOneTxPkt(laters, blockeds)
+            while laters:  # back to the front in order so queue order is kept
+                self.txPkts.appendleft(laters.pop())
 
     def serviceTxPktsOnce(self):
         '''
@@ -1888,8 +1886,8 @@ class GramStack(Stack):
             blockeds = [] # will always be empty since only once
             if self.txPkts:
                 self._serviceOneTxPkt(laters, blockeds)
-            while laters:
-                self.txPkts.append(laters.popleft())
+            while laters:  # back to the front so queue order is kept
+                self.txPkts.appendleft(laters.pop())
 
     def transmit(self, pkt, ha=None):
         """
